@@ -296,7 +296,11 @@ class TlSchemas:
                         i += 4
                         result[field] = []
                         for _ in range(length):
-                            if sch:
+                            if subtype in self.base_types:
+                                # (vector int), (vector int256), ...: items are bare base-type values, not objects
+                                deser, j = self.deserialize(data[i:], False, {'item': subtype})
+                                deser = deser['item']
+                            elif sch:
                                 deser, j = self.deserialize(data[i:], False, sch.args)
                             else:
                                 deser, j = self.deserialize(data[i:], True)
